@@ -120,8 +120,7 @@ theorem roots_order_independent_partial {pre₁ pre₂ : Bool} {f₁ f₂ : Nat}
     have a := compileWith_prog h₁
     have b := compileWith_prog h₂
     rw [a] at b
-    cases b
-    rfl
+    exact Option.some.inj b
   have i₁ := compile_roots_sound h₁ m n r₁ hr₁
   have i₂ := compile_roots_sound h₂ m n r₂ hr₂
   rw [hp] at i₁
@@ -135,7 +134,7 @@ theorem link_order_dependent :
       some (some (some (.named 0 (nm "C")))) ∧
     (compile 100 [{ types := [nm "B"] }] progD10).toOption.map (fun c => rootOfTypedef c 0 (nm "A")) =
       some (some none) := by
-  constructor <;> decide
+  constructor <;> decide +kernel
 
 /-- **Negation on the pinned tree (D41): whether the program is accepted depends on the link
 order.** `struct S {1: optional T t; 2: optional E e = 1}  struct T {1: optional S s = {}}
@@ -149,7 +148,7 @@ theorem acceptance_order_dependent :
 `enum Color {RED = 1}  const string s = Color.RED` is accepted and `s` is the enum item. -/
 theorem enum_item_not_cast :
     (compile 100 [] progD17).toOption.map (fun c => constIsItem c 0 (nm "s") (nm "RED") 1) = some true := by
-  decide
+  decide +kernel
 
 /-! Non-vacuity: a two-file program with an include-qualified reference, a local dotted name
 shadowing it, and a typedef chain; all orders agree and the roots are the spec's. -/
@@ -161,11 +160,11 @@ def sample : Program := ⟨true, [
   .ok [] [.typedef (nm "T") (.base 0 .i32), .typedef (nm "U") (.ref (nm "T"))]]⟩
 
 example : (gather sample).map (fun p => (resolveType p 0 (nm "b.T"), resolveType p 0 (nm "b.U"))) =
-    some (some (0, nm "b.T"), some (1, nm "U")) := by decide
+    some (some (0, nm "b.T"), some (1, nm "U")) := by decide +kernel
 example : (compile 100 [] sample).toOption.map (fun c => (rootOfTypedef c 0 (nm "X"), rootOfTypedef c 0 (nm "Y"))) =
-    some (some (some (.named 0 (nm "b.T"))), some (some (.base 0 .i32))) := by decide
+    some (some (some (.named 0 (nm "b.T"))), some (some (.base 0 .i32))) := by decide +kernel
 example : (compile 100 [{ types := [nm "b.T", nm "Y", nm "X"] }, { types := [nm "U"] }] sample).toOption.map
       (fun c => (rootOfTypedef c 0 (nm "X"), rootOfTypedef c 0 (nm "Y"))) =
-    some (some (some (.named 0 (nm "b.T"))), some (some (.base 0 .i32))) := by decide
+    some (some (some (.named 0 (nm "b.T"))), some (some (.base 0 .i32))) := by decide +kernel
 
 end ThriftVerif.Properties.C07
